@@ -96,6 +96,14 @@ class Tr:
             return self.block(rest, ind)  # docstring
         if isinstance(s, ast.Return):
             return pad + self.ret_stmt(s)
+        if isinstance(s, ast.Assign) and len(s.targets) == 1 and isinstance(s.targets[0], ast.Name):
+            return "%slet %s := %s\n%s" % (pad, s.targets[0].id, self.expr(s.value), self.block(rest, ind))
+        if (isinstance(s, ast.If) and len(s.body) == 1 and len(s.orelse) == 1 and isinstance(s.body[0], ast.Assign)
+                and isinstance(s.orelse[0], ast.Assign) and len(s.body[0].targets) == 1 and len(s.orelse[0].targets) == 1
+                and isinstance(s.body[0].targets[0], ast.Name) and isinstance(s.orelse[0].targets[0], ast.Name)
+                and s.body[0].targets[0].id == s.orelse[0].targets[0].id):
+            return "%slet %s := if %s then %s else %s\n%s" % (pad, s.body[0].targets[0].id, self.expr(s.test),
+                                                              self.expr(s.body[0].value), self.expr(s.orelse[0].value), self.block(rest, ind))
         if isinstance(s, ast.If):
             then = self.block(s.body if self.always_returns(s.body) else s.body + rest, ind + 2)
             if s.orelse:
@@ -140,8 +148,53 @@ end Gaftools.Gen
 """ % (args[0], args[1], body)
 
 
+def gen_merge_nodes():
+    path, src = src_of("gaftools/conversion.py")
+    fn = find_func(ast.parse(src), "merge_nodes")
+    args = [a.arg for a in fn.args.args]
+    if len(args) != 4:
+        raise Untranslatable("merge_nodes arity")
+    nodes, orients = args[:2], args[2:]
+    FIELD = {"contig_id": "contig", "start": "s", "end": "e"}
+
+    class T(Tr):
+        def expr(self, e):
+            # orientation characters: '>' = true, '<' = false
+            if isinstance(e, ast.Constant) and e.value in (">", "<"):
+                return "true" if e.value == ">" else "false"
+            if isinstance(e, ast.Call) and isinstance(e.func, ast.Name) and e.func.id == "StableNode" and len(e.args) == 3 and not e.keywords:
+                return "(⟨%s, %s, %s⟩ : SNode)" % tuple(self.expr(a) for a in e.args)
+            if isinstance(e, ast.Name) and e.id in orients + ["node"]:
+                return e.id
+            return Tr.expr(self, e)
+
+        def ret_stmt(self, st):
+            v = st.value
+            if isinstance(v, ast.Constant) and v.value is False:
+                return "none"
+            if isinstance(v, ast.List) and len(v.elts) == 2:
+                return "some (%s, %s)" % (self.expr(v.elts[0]), self.expr(v.elts[1]))
+            raise Untranslatable(ast.dump(st))
+
+    def attr(o, a):
+        if o in nodes + ["node"] and a in FIELD:
+            return "%s.%s" % (o, FIELD[a])
+        raise Untranslatable("attr %s.%s" % (o, a))
+
+    body = T(attr).block(fn.body, 2)
+    return """import Gaftools.Model.Conv
+/-! generated by harness/translate.py from gaftools/conversion.py : merge_nodes — do not edit -/
+namespace Gaftools.Gen
+open Gaftools.Conv
+def mergeNodes (%s %s : SNode) (%s %s : Bool) : Option (SNode × Bool) :=
+%s
+end Gaftools.Gen
+""" % (args[0], args[1], args[2], args[3], body)
+
+
 GENERATORS = {
     "CmpGaf": gen_cmp_gaf,
+    "MergeNodes": gen_merge_nodes,
 }
 
 
@@ -170,6 +223,13 @@ def regenerate(only=None):
 
 
 FALLBACK = {
+    "MergeNodes": """import Gaftools.Model.Conv
+/-! FALLBACK (source construct outside the translator's subset): hand-written twin re-exported -/
+namespace Gaftools.Gen
+open Gaftools.Conv
+def mergeNodes (node1 node2 : SNode) (orient1 orient2 : Bool) : Option (SNode × Bool) := Gaftools.Conv.mergeNodes node1 node2 orient1 orient2
+end Gaftools.Gen
+""",
     "CmpGaf": """import Gaftools.Model.Sort
 /-! FALLBACK (source construct outside the translator's subset): hand-written twin re-exported -/
 namespace Gaftools.Gen
